@@ -52,7 +52,7 @@ def prepare(tier):
     _CORPUS = corpus.load()
 
 
-def _restart(at, P, parset, progset, instructions, res, year, medium, scratch, stats):
+def _restart(at, P, parset, progset, instructions, res, year, medium, scratch, stats, prepare_only=False):
     """Save state of ``res`` at ``year`` through ``medium`` and run again from there. Returns the new Result."""
     import sciris as sc
 
@@ -105,6 +105,13 @@ def _restart(at, P, parset, progset, instructions, res, year, medium, scratch, s
                 worst = max(worst, float(rel.max()))
         stats["_saved_state_worst_rel"] = max(stats.get("_saved_state_worst_rel", 0.0), worst)
         ps = fresh
+    if prepare_only:
+        return (P2, ps, progset, instructions, year)
+    return _run_prepared((P2, ps, progset, instructions, year))
+
+
+def _run_prepared(prepared):
+    P2, ps, progset, instructions, year = prepared
     old_start = P2.settings.sim_start
     P2.settings.update_time_vector(start=year)
     try:
@@ -282,6 +289,37 @@ def run(ch, idx, tier):
         first_detail = {}
         knife = None
         trace = hashlib.sha256()
+        def judge(new, crash_at, year, medium, link, chain_exact):
+            nonlocal knife
+            # ---- oracle: tail of the uninterrupted run, index by index ----------------
+            tail = t[crash_at:]
+            # Precondition: the restarted simulation runs on the tail of the original time grid.  Building
+            # the grid (start + k*dt for steps that are not exactly representable) is property C03's
+            # business, not this one's: when ProjectSettings.tvec re-anchored at Y yields another number of
+            # points or other values, no claim is made here; the case is counted and skipped.
+            if len(new.t) != len(tail) or not np.allclose(new.t, tail, rtol=0, atol=1e-9):
+                bump("skipped_restarted_grid_differs")
+                return False, chain_exact
+            grid_exact = bool(np.array_equal(new.t, tail))
+            if not grid_exact and knife is None:
+                knife = _near_discontinuity(t, parset, progset, instructions)
+            if not grid_exact and knife:
+                # a step discontinuity (program start/stop, 'previous'-interpolated series point) sits on a
+                # grid value and the two grids differ in the last bit: which side it falls is undetermined
+                bump("skipped_knife_edge_on_inexact_grid")
+                return False, chain_exact
+            chain_exact = chain_exact and grid_exact and medium != "spreadsheet"
+            tol = 0.0 if chain_exact else 1e-9
+            bump("probe:bit_identity_demanded" if tol == 0.0 else "probe:tolerance_1e-9_used")
+            bad = compare_arrays(ref_arr, result_arrays(new), rtol=tol, atol=tol, index_from=(crash_at, 0))
+            if bad:
+                kinds = sorted({p.split(".")[1].split("[")[0] for p, _, _ in bad})
+                key = ("trajectory_diverges" if tol else "trajectory_not_bit_identical", f"restart[{medium}]")
+                if key not in first_detail:
+                    first_detail[key] = {"crash_index": crash_at, "year": float(year), "medium": medium, "chain_link": link, "tol": tol, "first_bad": [[p, w, ix] for p, w, ix in bad[:4]], "n_bad_arrays": len(bad), "kinds": kinds, "config": config}
+                return False, chain_exact
+            return True, chain_exact
+
         for i in crash_indices:
             medium = MEDIA[ch.choose("medium", len(MEDIA))]
             chain = 1 + (ch.choose("chain", 3) if ch.flip("do_chain", 0.25) else 0)
@@ -311,34 +349,8 @@ def run(ch, idx, tier):
                 trace.update(_dr(new).encode())
                 bump("model_years_x1000", int(1000 * (new.t[-1] - new.t[0])))
                 links.append((crash_at, medium))
-                # ---- oracle: tail of the uninterrupted run, index by index ----------------
-                tail = t[crash_at:]
-                # Precondition: the restarted simulation runs on the tail of the original time grid.  Building
-                # the grid (start + k*dt for steps that are not exactly representable) is property C03's
-                # business, not this one's: when ProjectSettings.tvec re-anchored at Y yields another number of
-                # points or other values, no claim is made here; the case is counted and skipped.
-                if len(new.t) != len(tail) or not np.allclose(new.t, tail, rtol=0, atol=1e-9):
-                    bump("skipped_restarted_grid_differs")
-                    ok = False
-                    break
-                grid_exact = bool(np.array_equal(new.t, tail))
-                if not grid_exact and knife is None:
-                    knife = _near_discontinuity(t, parset, progset, instructions)
-                if not grid_exact and knife:
-                    # a step discontinuity (program start/stop, 'previous'-interpolated series point) sits on a
-                    # grid value and the two grids differ in the last bit: which side it falls is undetermined
-                    bump("skipped_knife_edge_on_inexact_grid")
-                    ok = False
-                    break
-                chain_exact = chain_exact and grid_exact and medium != "spreadsheet"
-                tol = 0.0 if chain_exact else 1e-9
-                bump("probe:bit_identity_demanded" if tol == 0.0 else "probe:tolerance_1e-9_used")
-                bad = compare_arrays(ref_arr, result_arrays(new), rtol=tol, atol=tol, index_from=(crash_at, 0))
-                if bad:
-                    kinds = sorted({p.split(".")[1].split("[")[0] for p, _, _ in bad})
-                    key = ("trajectory_diverges" if tol else "trajectory_not_bit_identical", f"restart[{medium}]")
-                    if key not in first_detail:
-                        first_detail[key] = {"crash_index": crash_at, "year": float(year), "medium": medium, "chain_link": link, "tol": tol, "first_bad": [[p, w, ix] for p, w, ix in bad[:4]], "n_bad_arrays": len(bad), "kinds": kinds, "config": config}
+                ok_, chain_exact = judge(new, crash_at, year, medium, link, chain_exact)
+                if not ok_:
                     ok = False
                     break
                 if link + 1 < chain:
@@ -352,6 +364,29 @@ def run(ch, idx, tier):
                     bump("probe:chained_restart")
             if ok and N - 1 - i >= 2:
                 sigs.append((name, dt, use_progs, tuple(links)))
+        # ---- several saved states alive at once: all are saved and taken through their media FIRST, then each is
+        # run - a saved state must not depend on what was saved or loaded after it
+        if N >= 5 and name not in HEAVY and ch.flip("coexisting_saved_states", 0.5):
+            k_states = 2 + ch.choose("coexisting.n", 2)
+            idxs = sorted({ch.choose(f"coexisting.idx[{j}]", N - 1) for j in range(k_states)})
+            prepared = []
+            for j, ci in enumerate(idxs):
+                medium = MEDIA[ch.choose(f"coexisting.medium[{j}]", len(MEDIA))]
+                if ch.flip(f"coexisting.spreadsheet[{j}]", 0.5):
+                    medium = "spreadsheet"
+                try:
+                    prepared.append((ci, medium, _restart(at, P, parset, progset, instructions, ref, t[ci], medium, scratch, stats, prepare_only=True)))
+                except Exception as e:
+                    violations.append({"cls": "restart_raises", "site": "coexisting_saved_states:prepare", "detail": {"exception": f"{type(e).__name__}: {str(e)[:300]}", "crash_index": ci, "medium": medium, "config": config}})
+            for ci, medium, prep in prepared:
+                try:
+                    new = _run_prepared(prep)
+                except Exception as e:
+                    violations.append({"cls": "restart_raises", "site": "coexisting_saved_states:run", "detail": {"exception": f"{type(e).__name__}: {str(e)[:300]}", "crash_index": ci, "medium": medium, "config": config}})
+                    continue
+                bump("evaluations")
+                bump("probe:restart_with_other_saved_states_alive")
+                judge(new, ci, t[ci], medium, 0, True)
         for (cls, site), detail in first_detail.items():
             violations.append({"cls": cls, "site": site, "detail": detail})
         if entry.meta["timed"]:
